@@ -97,13 +97,17 @@ class RecLSC:
     def __init__(self):
         self.P = None
         self.symbolic = False
+        self.inner = None  # a real (shipped) local stop condition to pass through, or None for a symbolic verdict
         self.calls = {}  # deme id -> list of verdicts
 
     def __call__(self, deme):
         if not self.symbolic:
             return False
         k = len(self.calls.setdefault(deme.id, []))
-        b = bool(self.P.bool(f"lsc.{deme.id}#{k}"))
+        if self.inner is not None:
+            b = bool(self.inner(deme))
+        else:
+            b = bool(self.P.bool(f"lsc.{deme.id}#{k}"))
         self.calls[deme.id].append(b)
         return b
 
